@@ -672,10 +672,374 @@ class G_Debug(TG):
         dbg_reach(ctx, 'item_attr', a.rust(), '-')
         it.attrs.insert(sp.randrange(len(it.attrs) + 1), a)
 
+# ---------------------------------------------------------------- PartialOrd / Ord
+ISIZE_MIN, ISIZE_MAX = -2 ** 63, 2 ** 63 - 1
+I128_MIN, I128_MAX = -2 ** 127, 2 ** 127 - 1
+RANK_POOL = [0, 1, 2, 3, 4, 5, 7, 10, 16, 100, 255, 65536, -1, -2, -3, -10, -128, ISIZE_MAX, ISIZE_MAX - 1,
+             ISIZE_MIN + 100, 4294967296, -4294967297]
+REPR_INTS = ['i8', 'i16', 'i32', 'i64', 'i128', 'isize', 'u8', 'u16', 'u32', 'u64', 'u128', 'usize']
+
+def sp_int(sp, v, allow_suffix=True):
+    """a spelling of the integer literal v (sign included as a leading minus)"""
+    m = abs(v)
+    forms = [str(m), str(m)]
+    forms.append(hex(m))
+    forms.append('0b' + bin(m)[2:] if m < 256 else '0o' + oct(m)[2:])
+    if m >= 1000:
+        forms.append('{:_}'.format(m))
+    else:
+        forms.append('0' + str(m) if m else '0_0')
+    if allow_suffix:
+        forms.append(str(m) + pick(sp, ['isize', 'i64', 'u8', 'i128', '_i32']))
+    t = pick(sp, forms)
+    return ('-' + pick(sp, ['', ' ']) + t) if v < 0 else t
+
+def sp_rank(sp, v):
+    """every documented (and accepted) spelling of `rank = v`"""
+    c = sp.randrange(6)
+    if c == 0:
+        return 'rank = %s' % sp_int(sp, v)
+    if c == 1:
+        return 'rank(%s)' % sp_int(sp, v)
+    if c == 2 or c == 3:
+        d = str(abs(v))
+        if sp.random() < 0.2:
+            d = '0' + d
+        s = ('-' + d) if v < 0 else (pick(sp, ['', '', '+']) + d)
+        return pick(sp, ['rank = "%s"', 'rank("%s")']) % s
+    if c == 4:
+        return 'rank = %d' % v
+    return 'rank(%d)' % v
+
+RANK_BAD_FORMS = [
+    ('rank_path', 'rank'), ('rank_float', 'rank = 1.5'), ('rank_float', 'rank(1.5)'), ('rank_float', 'rank = -1.5'),
+    ('rank_float', 'rank(-1.5)'), ('rank_str_bad', 'rank = "x"'), ('rank_str_bad', 'rank("")'), ('rank_str_bad', 'rank = ""'),
+    ('rank_str_bad', 'rank = "+"'), ('rank_str_bad', 'rank("-")'), ('rank_str_bad', 'rank = " 1"'), ('rank_str_bad', 'rank = "0x10"'),
+    ('rank_str_bad', 'rank("1_0")'), ('rank_str_bad', 'rank = "1 "'), ('rank_str_bad', 'rank = "--1"'), ('rank_str_bad', 'rank = "1.0"'),
+    ('rank_bool', 'rank(true)'), ('rank_bool', 'rank = true'), ('rank_bool', 'rank(false)'),
+    ('rank_extra', 'rank(1, 2)'), ('rank_extra', 'rank(1,)'), ('rank_extra', 'rank("x" 2)'), ('rank_extra', 'rank(1 2)'),
+    ('rank_empty', 'rank()'), ('rank_ident', 'rank = x'), ('rank_ident', 'rank(x)'), ('rank_ident', 'rank = -x'),
+    ('rank_ident', 'rank(-x)'), ('rank_ident', 'rank = a::b'), ('rank_char', "rank('c')"), ('rank_char', "rank = 'c'"),
+    ('rank_char', 'rank(b"x")'), ('rank_char', "rank = b'x'"), ('rank_negstr', 'rank(-"1")'), ('rank_negstr', "rank(-'c')"),
+    ('rank_negstr', 'rank(-true)'), ('rank_negstr', 'rank(- -1)'), ('rank_call', 'rank = f(1)'),
+    ('rank_range', 'rank = 9223372036854775808'), ('rank_range', 'rank(9223372036854775808)'),
+    ('rank_range', 'rank = "9223372036854775808"'), ('rank_range', 'rank = -9223372036854775809'),
+    ('rank_range', 'rank(-9223372036854775809)'), ('rank_range', 'rank = "-9223372036854775809"'),
+    ('rank_range', 'rank = -9223372036854775809, ignore = false'), ('rank_range', 'rank = 0xffff_ffff_ffff_ffff'),
+    ('rank_range', 'rank = 340282366920938463463374607431768211456'), ('rank_range', 'rank = 18446744073709551616u8'),
+    ('rank_reset', 'rank = 1, rank = 2'), ('rank_reset', 'rank(1), rank(1)'), ('rank_reset', 'rank = "x", rank = 1'),
+    ('rank_reset', 'rank = 1, rank = "x"'), ('rank_reset', 'rank = 1, rank'),
+]
+
+def ord_names(ctx):
+    return [t for t in ('PartialOrd', 'Ord') if t in ctx.traits]
+
+def ord_reach(ctx, *tag):
+    ctx.notes.setdefault('reach', []).append(tag)
+
+def ord_plan_container(ctx, field):
+    """decide (request stream only) the ignore / method / rank request of every field of the
+    struct / variant `field` belongs to; called when its first field is generated"""
+    r = ctx.rng
+    n = field.count
+    reqs = []
+    for i in range(n):
+        q = dict(ignore=None, method=None, rank=None, fault=None)
+        c = r.random()
+        if c < 0.18:
+            q['ignore'] = True
+        elif c < 0.24:
+            q['ignore'] = False
+        if r.random() < 0.25:
+            q['method'] = pick(r, METHOD_PATHS)
+        if r.random() < 0.45:
+            c = r.random()
+            if c < 0.75:
+                q['rank'] = pick(r, RANK_POOL)
+            elif c < 0.9:
+                q['rank'] = ISIZE_MIN + r.randrange(n)      # the default rank of one of the fields
+            else:
+                q['rank'] = pick(r, [ISIZE_MIN, ISIZE_MAX, 0, -0])
+        reqs.append(q)
+    want_dup = ctx.want_fault and ctx.fault is None and n >= 2 and r.random() < 0.12
+    def eff(i):
+        q = reqs[i]
+        return None if q['ignore'] else (q['rank'] if q['rank'] is not None else ISIZE_MIN + i)
+    if want_dup:
+        i, j = r.sample(range(n), 2)
+        reqs[i]['ignore'] = reqs[j]['ignore'] = None if r.random() < 0.7 else False
+        mode = r.randrange(3)
+        if mode == 0:
+            reqs[i]['rank'] = reqs[j]['rank'] = pick(r, RANK_POOL)
+            kind = 'rank_dup_explicit'
+        else:
+            reqs[j]['rank'] = None
+            reqs[i]['rank'] = ISIZE_MIN + j
+            kind = 'rank_dup_default'
+        ctx.fault = kind
+        ord_reach(ctx, 'fault', kind)
+        ord_reach(ctx, 'fault_at', kind, ('variant_' if field.variant is not None else 'struct_') + ('named' if field.named else 'tuple'))
+    else:
+        # make the request valid: explicit ranks that collide are re-drawn / dropped
+        used = set()
+        for i in range(n):
+            if reqs[i]['ignore']:
+                continue
+            if reqs[i]['rank'] is None:
+                used.add(ISIZE_MIN + i)
+        for i in range(n):
+            q = reqs[i]
+            if q['ignore'] or q['rank'] is None:
+                continue
+            tries = 0
+            while q['rank'] in used and tries < 20:
+                q['rank'] = pick(r, RANK_POOL + [ISIZE_MIN + k for k in range(n)])
+                tries += 1
+            if q['rank'] in used:
+                q['rank'] = 1000 + i
+            used.add(q['rank'])
+    if ctx.want_fault and ctx.fault is None and n >= 1 and r.random() < 0.12:
+        i = r.randrange(n)
+        kind, text = pick(r, RANK_BAD_FORMS)
+        reqs[i]['fault'] = (kind, text)
+        ctx.fault = kind
+        ord_reach(ctx, 'fault', kind, text)
+    elif ctx.want_fault and ctx.fault is None and n >= 1 and len(ord_names(ctx)) == 2 and r.random() < 0.08:
+        reqs[r.randrange(n)]['fault'] = ('both_names', None)
+        ctx.fault = 'ord_both_names'
+        ord_reach(ctx, 'fault', 'ord_both_names')
+    elif ctx.want_fault and ctx.fault is None and n >= 1 and r.random() < 0.04:
+        reqs[r.randrange(n)]['fault'] = ('field_flag', None)
+        ctx.fault = 'ord_field_flag'
+        ord_reach(ctx, 'fault', 'ord_field_flag')
+    return reqs
+
+def ord_spelling_class(text):
+    """`rank = "-3"` -> 'rank=str' ; `ignore` -> 'ignore' ; `method(a::b)` -> 'method()tok'"""
+    head = text.split('=')[0].split('(')[0].strip()
+    if text.strip() == head:
+        return head
+    form = '=' if '=' in text.split('(')[0] else '()'
+    return head + form + ('str' if '"' in text else 'tok')
+
+def ord_field_text(ctx, field):
+    """returns {trait name: meta text} for this field"""
+    r, sp = ctx.rng, ctx.sp
+    key = ('ordplan', field.variant.index if field.variant is not None else -1)
+    if field.index == 0 or key not in ctx.notes:
+        ctx.notes[key] = ord_plan_container(ctx, field)
+    q = ctx.notes[key][field.index]
+    names = ord_names(ctx)
+    carrier = pick(sp, names)
+    shape = ('variant_' if field.variant is not None else 'struct_') + ('named' if field.named else 'tuple')
+    if q['fault'] is not None:
+        ord_reach(ctx, 'fault_at', q['fault'][0], shape)
+    if q['fault'] is not None and q['fault'][0] == 'both_names':
+        return {'PartialOrd': pick(sp, ['PartialOrd(ignore)', 'PartialOrd = false', 'PartialOrd(rank = 1)']),
+                'Ord': pick(sp, ['Ord(rank = 2)', 'Ord(method(m))', 'Ord = true'])}
+    if q['fault'] is not None and q['fault'][0] == 'field_flag':
+        return {carrier: carrier}
+    if q['fault'] is not None:
+        params = [q['fault'][1]]
+        if q['method'] is not None and sp.random() < 0.5 and 'ignore' not in q['fault'][1]:
+            params.append(sp_path_param(sp, 'method', q['method']))
+        sp.shuffle(params)
+        return {carrier: '%s(%s)' % (carrier, ', '.join(params))}
+    params = []
+    if q['method'] is not None:
+        params.append(sp_path_param(sp, 'method', q['method']))
+    if q['rank'] is not None:
+        params.append(sp_rank(sp, q['rank']))
+    if q['ignore'] is not None:
+        if not params and sp.random() < 0.4:
+            ord_reach(ctx, shape, 'ignore', 'Trait=bool')
+            ord_reach(ctx, 'carrier', carrier, 'of %d' % len(names))
+            return {carrier: '%s = %s' % (carrier, 'false' if q['ignore'] else 'true')}
+        params.append(sp_bool_param(sp, 'ignore', q['ignore']))
+    if not params:
+        if r.random() < 0.05:
+            ord_reach(ctx, shape, 'no parameter', 'Trait()')
+            ord_reach(ctx, 'carrier', carrier, 'of %d' % len(names))
+            return {carrier: '%s()' % carrier}
+        ord_reach(ctx, shape, 'no attribute', '')
+        return {}
+    ord_reach(ctx, 'carrier', carrier, 'of %d' % len(names))
+    text = join_params(sp, params)
+    for ptxt in params:
+        cls = ord_spelling_class(ptxt)
+        if ptxt.startswith('rank') and q['rank'] < 0:
+            cls += ' negative'
+            if '"' not in ptxt and '(' not in ptxt.split('=')[0] and not text.rstrip().endswith(ptxt):
+                cls += ' not-last(Expr::Unary)'
+        ord_reach(ctx, shape, ptxt.split('=')[0].split('(')[0].strip(), cls)
+    if q['ignore']:
+        ord_reach(ctx, shape, 'ignored field', 'with rank' if q['rank'] is not None else '')
+    return {carrier: '%s(%s)' % (carrier, text)}
+
+def ord_field_meta(ctx, field, name):
+    if ctx.kind == 'union':
+        return None
+    key = ('ordtext', field.variant.index if field.variant is not None else -1, field.index)
+    if key not in ctx.notes:
+        ctx.notes[key] = ord_field_text(ctx, field)
+    return ctx.notes[key].get(name)
+
+DISCR_POOL = [0, 1, 2, 3, 5, 100, 127, 128, 200, 255, 256, 32767, 32768, 65535, 2147483647, 2147483648,
+              4294967295, ISIZE_MAX, ISIZE_MAX + 1, 2 ** 64, I128_MAX - 1, I128_MAX,
+              -1, -2, -128, -129, -32768, -32769, -2147483648, -2147483649, ISIZE_MIN, ISIZE_MIN - 1, I128_MIN + 1, I128_MIN]
+DISCR_BAD = [('discr_nonlit', 'FOO'), ('discr_nonlit', 'a::B'), ('discr_nonlit', '1 + 1'), ('discr_nonlit', '-(1)'),
+             ('discr_nonlit', '- -1'), ('discr_nonlit', '(1)'), ('discr_nonlit', 'foo(1)'), ('discr_nonlit', '1 as u8'),
+             ('discr_nonlit', '-x'), ('discr_nonlit', 'A | B'), ('discr_op', '!0'), ('discr_op', '*x'), ('discr_op', '!FOO'),
+             ('discr_notint', '"x"'), ('discr_notint', '1.0'), ('discr_notint', 'true'), ('discr_notint', '-1.5'),
+             ('discr_notint', "'c'"), ('discr_notint', "b'a'"), ('discr_notint', '-"x"'), ('discr_notint', '-true'),
+             ('discr_range', '170141183460469231731687303715884105728'),
+             ('discr_range', '-170141183460469231731687303715884105729'),
+             ('discr_range', '340282366920938463463374607431768211455'),
+             ('discr_range', '0xffff_ffff_ffff_ffff_ffff_ffff_ffff_ffff'),
+             ('discr_range', '-340282366920938463463374607431768211456')]
+REPR_BAD = ['align(8)', 'C, align(4)', 'u8 u16', ',', 'u8,,', 'fn', 'C, packed(2)', '"u8"', 'u8; 2', 'a::u8', '8', 'u8, 8']
+
+def ord_post(ctx, inp):
+    """#[repr(..)] attributes and explicit discriminants of an ordered enum (once per case)"""
+    if ctx.notes.get('ord_post_done') or inp.kind != 'enum':
+        return
+    ctx.notes['ord_post_done'] = True
+    r, sp = ctx.rng, ctx.sp
+    nv = len(inp.variants)
+    all_unit = all(v.kind == 'unit' for v in inp.variants)
+    ord_reach(ctx, 'enum', 'variants', min(nv, 2), 'all_unit' if (all_unit and nv) else 'mixed' if nv else 'empty')
+    # ---- repr
+    reprs = []
+    c = r.random()
+    if c < 0.45:
+        kind = 'none'
+    elif c < 0.62:
+        kind = 'int'
+        reprs.append(Attr('repr', 'list', pick(r, REPR_INTS)))
+    elif c < 0.70:
+        kind = 'C'
+        reprs.append(Attr('repr', 'list', 'C'))
+    elif c < 0.78:
+        kind = 'C_int'
+        reprs.append(Attr('repr', 'list', 'C, ' + pick(r, REPR_INTS)))
+    elif c < 0.82:
+        kind = 'int_C'
+        reprs.append(Attr('repr', 'list', pick(r, REPR_INTS) + ', C'))
+    elif c < 0.87:
+        kind = 'two_attrs'
+        reprs.append(Attr('repr', 'list', pick(r, ['C', 'transparent', '', 'Rust'])))
+        reprs.append(Attr('repr', 'list', pick(r, REPR_INTS)))
+    elif c < 0.90:
+        kind = 'two_ints'
+        reprs.append(Attr('repr', 'list', pick(r, REPR_INTS)))
+        reprs.append(Attr('repr', 'list', pick(r, REPR_INTS)))
+    elif c < 0.93:
+        kind = 'not_list'
+        reprs.append(pick(r, [Attr('repr', 'path'), Attr('repr', 'nv', '"u8"'), Attr('a::repr', 'list', 'u8'),
+                              Attr('repr', 'list', 'r#u8'), Attr('repr', 'list', 'U8'), Attr('repr', 'list', '')]))
+    else:
+        kind = 'other_word'
+        reprs.append(Attr('repr', 'list', pick(r, ['transparent', 'Rust', 'C, C', 'packed, u8', 'align, i16'])))
+    repr_fault = False
+    if ctx.want_fault and ctx.fault is None and r.random() < 0.10:
+        bad = Attr('repr', 'list', pick(r, REPR_BAD))
+        # a bad repr list is only an error when no earlier #[repr(int)] decided
+        if kind in ('int', 'two_ints', 'int_C') and r.random() < 0.5:
+            reprs.append(bad)             # shadowed: still a valid request
+            kind += '+shadowed_bad'
+        else:
+            reprs.insert(0, bad)
+            ctx.fault = 'repr_bad'
+            repr_fault = True
+            ord_reach(ctx, 'fault', 'repr_bad', bad.args)
+    for a in reprs:
+        if a.kind == 'list':
+            a.delim = pick(sp, ['(', '(', '(', '(', '[', '{'])
+            if a.args and not a.args.endswith(',') and sp.random() < 0.1 and a.args not in REPR_BAD:
+                a.args += ','
+    ord_reach(ctx, 'enum', 'repr', kind)
+    # keep the relative order of the repr attributes, interleave them with the others
+    pos = sorted(sp.randrange(len(inp.attrs) + 1) for _ in reprs)
+    for k, (p, a) in enumerate(zip(pos, reprs)):
+        inp.attrs.insert(p + k, a)
+    # ---- discriminants
+    if nv == 0:
+        return
+    c = r.random()
+    decided_by_repr = kind.split('+')[0] in ('int', 'two_attrs', 'two_ints', 'int_C') and not repr_fault
+    if c < 0.45:
+        ord_reach(ctx, 'enum', 'discr', 'none')
+    else:
+        vals = []
+        for v in inp.variants:
+            if r.random() < 0.6:
+                vals.append(pick(r, DISCR_POOL) if r.random() < 0.7 else r.randrange(-300, 300))
+            else:
+                vals.append(None)
+        for v, x in zip(inp.variants, vals):
+            if x is not None:
+                v.discr = sp_int(sp, x, allow_suffix=True)
+        ord_reach(ctx, 'enum', 'discr', 'explicit', 'neg' if any(x is not None and x < 0 for x in vals) else 'nonneg')
+    if ctx.want_fault and (ctx.fault is None or (decided_by_repr and r.random() < 0.3)) and r.random() < 0.15:
+        kind2, text = pick(r, DISCR_BAD)
+        pick(r, inp.variants).discr = text
+        if decided_by_repr:
+            ord_reach(ctx, 'enum', 'discr_bad_but_repr', kind2)   # never looked at: still valid
+        else:
+            if ctx.fault is None:
+                ctx.fault = kind2
+            ord_reach(ctx, 'fault', kind2, text)
+
+class G_PartialOrd(TG):
+    name = 'PartialOrd'
+    union_ok = False
+    def type_meta(self, ctx):
+        r, sp = ctx.rng, ctx.sp
+        if 'Ord' in ctx.traits:
+            # the Ord handler owns the implementation: only the flag form is accepted here
+            if ctx.want_fault and ctx.fault is None and r.random() < 0.06:
+                ctx.fault = 'pord_bound_with_ord'
+                ord_reach(ctx, 'fault', 'pord_bound_with_ord')
+                return pick(r, ['PartialOrd(bound(*))', 'PartialOrd(bound = false)', 'PartialOrd(bound(T: Copy))'])
+            ord_reach(ctx, 'type', 'PartialOrd', 'flag_with_ord')
+            return pick(sp, ['PartialOrd', 'PartialOrd', 'PartialOrd', 'PartialOrd()'])
+        mode, b = gen_bound(ctx)
+        ord_reach(ctx, 'type', 'PartialOrd', 'bound_' + mode, (b or '').split('(')[0].split('=')[0].strip() + ('=' if b and '=' in b.split('(')[0] else '()' if b else ''))
+        return trait_with_params(sp, 'PartialOrd', [b])
+    def variant_meta(self, ctx, variant):
+        if ctx.rng.random() < 0.04:
+            ord_reach(ctx, 'variant_meta', 'PartialOrd()')
+            ctx.notes[('ord_vmeta', variant.index)] = True
+            return 'PartialOrd()'
+        return None
+    def field_meta(self, ctx, field):
+        return ord_field_meta(ctx, field, 'PartialOrd')
+    def post(self, ctx, inp):
+        ord_post(ctx, inp)
+
+class G_Ord(TG):
+    name = 'Ord'
+    union_ok = False
+    def type_meta(self, ctx):
+        mode, b = gen_bound(ctx)
+        ord_reach(ctx, 'type', 'Ord', 'bound_' + mode, (b or '').split('(')[0].split('=')[0].strip() + ('=' if b and '=' in b.split('(')[0] else '()' if b else ''))
+        return trait_with_params(ctx.sp, 'Ord', [b])
+    def variant_meta(self, ctx, variant):
+        if ctx.rng.random() < 0.04 and not ctx.notes.get(('ord_vmeta', variant.index)):
+            ord_reach(ctx, 'variant_meta', 'Ord()')
+            return 'Ord()'
+        return None
+    def field_meta(self, ctx, field):
+        return ord_field_meta(ctx, field, 'Ord')
+    def post(self, ctx, inp):
+        ord_post(ctx, inp)
+
 GENS = {'PartialEq': G_PartialEq(), 'Eq': G_Eq(), 'Hash': G_Hash()}
 GENS['Clone'] = G_Clone()
 GENS['Copy'] = G_Copy()
 GENS['Debug'] = G_Debug()
+GENS['PartialOrd'] = G_PartialOrd()
+GENS['Ord'] = G_Ord()
 
 # ---------------------------------------------------------------- attribute assembly
 OTHER_ATTRS = [Attr('doc', 'nv', '" some docs"'), Attr('allow', 'list', 'dead_code'),
@@ -779,6 +1143,9 @@ def gen_case(seed, spseed, modelled, want_fault=False, kinds=('struct', 'enum', 
     ctx.kind = pick(rng, list(kinds) + ['struct', 'enum'])
     if ctx.kind not in kinds:
         ctx.kind = kinds[0]
+    if ctx.kind == 'union' and any(not getattr(GENS[t], 'union_ok', True) for t in traits if t in GENS) \
+            and len(kinds) > 1 and rng.random() < 0.85:
+        ctx.kind = pick(rng, [k for k in kinds if k != 'union'])   # the trait refuses unions: keep them rare
     g = gen_generics(ctx)
     type_metas = [GENS[t].type_meta(ctx) for t in traits]
     type_metas = apply_fault(ctx, 'type', type_metas, ctx.traits)
